@@ -172,7 +172,7 @@ func ruleC04_3(c *Ctx, r *Rep) {
 	}
 	r.Check("C04.3", "C04.3:deadline←NextDelayFor", ap.Pos(), okNA && okFz, "deadline = now + backoff(sub, attempts+1) (+ jitter)", "the stored deadline does not derive from NextDelayFor and now")
 	okArg := false
-	for _, ci := range callsIn(ap, false, func(cal *ssa.Function, _ ssa.CallInstruction) bool { return cal.Name() == "NextDelayFor" }) {
+	for _, ci := range c.callsInOp(ap, func(cal *ssa.Function, _ ssa.CallInstruction) bool { return cal.Name() == "NextDelayFor" }) {
 		a := ci.Common().Args
 		if b, ok := a[1].(*ssa.BinOp); ok && b.Op == token.ADD && sources(b.X)["field:Attempts"] {
 			if v, ok := constInt(b.Y); ok && v == 1 {
@@ -412,6 +412,42 @@ func predecessorLookup(c *Ctx) *Stmt {
 	return nil
 }
 
+// fieldOfParamOf: v reads field `field` of (something reached from) a parameter of fn — directly, or inside a private
+// helper whose corresponding parameter is bound, at its only call site, to a parameter of fn.
+func fieldOfParamOf(v ssa.Value, fn *ssa.Function, field string) bool {
+	v = resolve(v)
+	// *x.Field, possibly behind a pointer load (**x.Field for a *string field)
+	for i := 0; i < 3; i++ {
+		u, ok := v.(*ssa.UnOp)
+		if !ok || u.Op != token.MUL {
+			return false
+		}
+		if fa, ok := u.X.(*ssa.FieldAddr); ok {
+			if fieldName(fa.X.Type(), fa.Field) != field {
+				return false
+			}
+			base := resolve(fa.X)
+			for j := 0; j < 4; j++ {
+				p, isP := base.(*ssa.Parameter)
+				if !isP {
+					return false
+				}
+				if p.Parent() == fn {
+					return true
+				}
+				a := uniqueCallerArg(p)
+				if a == nil {
+					return false
+				}
+				base = resolve(a)
+			}
+			return false
+		}
+		v = resolve(u.X)
+	}
+	return false
+}
+
 func ruleC05_1_2(c *Ctx, r *Rep) {
 	fn := r.Anchor("C05.1", fnDeliver)
 	if fn == nil {
@@ -439,7 +475,7 @@ func ruleC05_1_2(c *Ctx, r *Rep) {
 		}
 	}
 	keyAtoms := s.Find(alias, "order_key", "eq")
-	ok1 := joinOK && len(keyAtoms) == 1 && keyAtoms[0].Arg != nil && sources(keyAtoms[0].Arg)["field:OrderKey"] && strings.Contains(valKey(keyAtoms[0].Arg), "deliverToSubscription.m.")
+	ok1 := joinOK && len(keyAtoms) == 1 && keyAtoms[0].Arg != nil && sources(keyAtoms[0].Arg)["field:OrderKey"] && fieldOfParamOf(keyAtoms[0].Arg, fn, "OrderKey")
 	// alternatively chaining may be unconditional on the key (then any predecessor is fine)
 	nb := notBeforeMut(c)
 	unconditionalChain := nb != nil && !condsMention(nb.Conds, "field:OrderKey")
@@ -621,9 +657,11 @@ func ruleC06_1(c *Ctx, r *Rep) {
 	n := 0
 	r.noValueUse(c, "C06.1", dl)
 	for _, ci := range c.callersOf(dl) {
-		o := c.Key(top(ci.Parent()))
 		n++
-		r.Check("C06.1", "C06.1:caller:"+o, ci.Pos(), in(o, fnPullApply, fnNack, fnDLSweep), "", "deadLetterDelivery is called from "+o+", which is not pull / nack / sweep")
+		for _, ow := range c.effectiveOwners(ci.Parent(), 0) {
+			o := c.Key(ow)
+			r.Check("C06.1", "C06.1:caller:"+o, ci.Pos(), in(o, fnPullApply, fnNack, fnDLSweep), "", "deadLetterDelivery is called from "+o+", which is not pull / nack / sweep")
+		}
 	}
 	r.Floor("C06.1", n, 2)
 }
@@ -672,7 +710,7 @@ func ruleC06_2(c *Ctx, r *Rep) {
 		if fn == nil {
 			continue
 		}
-		calls := callsIn(fn, false, func(cal *ssa.Function, _ ssa.CallInstruction) bool { return cal == dl })
+		calls := callsIn(c.opFuncWhere(fn, hasCallTo(dl)), false, func(cal *ssa.Function, _ ssa.CallInstruction) bool { return cal == dl })
 		if len(calls) == 0 {
 			r.Fail("C06.2", "C06.2:trigger@"+fk, fn.Pos(), "this path no longer dead-letters: a message past its attempt limit keeps being delivered")
 			continue
@@ -819,6 +857,7 @@ func ruleC06_3(c *Ctx, r *Rep) {
 	}
 	// pull: after a successful dead-letter call the append to results must not be reachable in the same iteration
 	if ap := r.Anchor("C06.3", fnPullApply); ap != nil {
+		ap = c.opFuncWhere(ap, hasCallTo(dl))
 		for _, ci := range callsIn(ap, false, func(cal *ssa.Function, _ ssa.CallInstruction) bool { return cal == dl }) {
 			l := innermostLoop(loopsOf(ap), ci.Block())
 			ok := l != nil
@@ -842,6 +881,7 @@ func ruleC06_3(c *Ctx, r *Rep) {
 		}
 	}
 	if nk := r.Anchor("C06.3", fnNack); nk != nil {
+		nk = c.opFuncWhere(nk, hasCallTo(dl))
 		for _, ci := range callsIn(nk, false, func(cal *ssa.Function, _ ssa.CallInstruction) bool { return cal == dl }) {
 			l := innermostLoop(loopsOf(nk), ci.Block())
 			ok := l != nil
